@@ -13,6 +13,7 @@ from pbsym import ctx, rig as rigm, script as sc
 from pbsym.ctx import B
 
 PROPERTY = 'C01'
+TECHNIQUE = 'CrossHair/z3 symbolic execution of the real recorder + cassettes over symbolic programs (opcode lists) and environment values; counterexamples replayed with real jsonpickle'
 FUNCTIONS = ['playback/tape_recorder.py::TapeRecorder._operation',
              'playback/tape_recorder.py::TapeRecorder._execute_operation_func',
              'playback/tape_recorder.py::TapeRecorder._intercept_input',
